@@ -14,6 +14,7 @@ Record cut := Cut {
   ct_records : list rec;           (* what the implementation persisted *)
   ct_restored : dump;              (* the implementation's store after Restore *)
   ct_reads : N * N * N;            (* restored store: KVSList "" index, SessionList index, PreparedQueryList index *)
+  ct_qreads : list (query * qres); (* restored store: the modelled reads as the implementation answered them (result and index) *)
   ct_final : option dump           (* restored FSM after the suffix (its own lock delays) *)
 }.
 
@@ -30,6 +31,9 @@ Definition rec_eqb (a b : rec) : bool :=
   | _, _ => bool_decide (a = b)
   end.
 
+Global Instance qres_eq_dec : EqDecision qres.
+Proof. solve_decision. Defined.
+
 Definition reads_of (s : st) : N * N * N :=
   match run_query QKVListAll s, run_query QSessionList s, run_query (QQueryGet "") s with
   | QRkvs a _, QRsessions b _, QRquery c _ => (a, b, c)
@@ -39,7 +43,10 @@ Definition reads_of (s : st) : N * N * N :=
 (* codes: 0 fine; 1 the model's snapshot of its own state differs from the records the
    implementation wrote; 2 the model's restore of the implementation's records differs from the
    implementation's restored store (or fails); 3 the read indexes differ; 4 results of the suffix
-   on the restored state differ; 5 the final state after the suffix differs *)
+   on the restored state differ; 5 the final state after the suffix differs; 6 the law of
+   C02_roundtrip, [refresh (repl s)] for the model's own state s at the cut, is not the
+   implementation's restored store; 7 a modelled read ([run_query]) of the restored state answers
+   otherwise than the implementation's read of its restored store (result or index) *)
 Definition check_cut (log : list (N * cmd)) (results : list cres) (c : cut) : N :=
   let s := (run (firstn (ct_k c) log) st0).1 in
   if negb (list_eqb rec_eqb (snapshot (fun _ => 0) s) (ct_records c)) then 1 else
@@ -47,7 +54,9 @@ Definition check_cut (log : list (N * cmd)) (results : list cres) (c : cut) : N 
   | Err _ _ => 2
   | Ok r =>
     if negb (st_eqb r (st_of (ct_restored c))) then 2 else
+    if negb (st_eqb (refresh (repl s)) (st_of (ct_restored c))) then 6 else
     if negb (bool_decide (reads_of r = ct_reads c)) then 3 else
+    if negb (forallb (fun qr => bool_decide (run_query qr.1 r = qr.2)) (ct_qreads c)) then 7 else
     match ct_final c with
     | None => 0
     | Some fd =>
